@@ -47,4 +47,18 @@ theorem same_first_error_partial (G : Grammar) (Ac Ap : Automaton) (hc : check G
   ⟨C04.error_not_premature G Ac hc An hAn hlc w f1 i s1 hi h1,
    C04.error_not_premature G Ap hp An hAn hlp w f2 j s2 hj h2⟩
 
+/-- **Same first-error position.** If both automata additionally pass `checkVP` (closed states hold
+only closure items; all rules productive) the two parsers report their error at the same lexeme, for
+every input: the position is determined by the language alone. -/
+theorem same_first_error (G : Grammar) (Ac Ap : Automaton) (hc : check G Ac = true) (hp : check G Ap = true)
+    (hvc : checkVP G Ac = true) (hvp : checkVP G Ap = true)
+    (An : Analyses) (hAn : analyses G = some An)
+    (hlc : checkLA G Ac (An.nullable.contains ·) (An.first.contains ·) = true)
+    (hlp : checkLA G Ap (An.nullable.contains ·) (An.first.contains ·) = true)
+    (w : List Nat) (hw : InputOk G w) (f1 f2 i j s1 s2 : Nat)
+    (h1 : parse G Ac w f1 = .error i s1) (h2 : parse G Ap w f2 = .error j s2) : i = j :=
+  Nat.le_antisymm
+    (C04.error_position_unique G Ap Ac hp hc hvc An hAn hlp w hw f2 f1 j i s2 s1 h2 h1)
+    (C04.error_position_unique G Ac Ap hc hp hvp An hAn hlc w hw f1 f2 i j s1 s2 h1 h2)
+
 end GrmVerif.C02
